@@ -272,6 +272,186 @@ def tag_member_letter_pred():
     return out, body
 
 
+
+# ---------------------------------------------------------------- the key builders and range bounds of lmdb/mod.rs
+
+def strip_comments_rs(t):
+    return re.sub(r'//[^\n]*', '', t)
+
+
+def fn_text(src, name):
+    """(parameter text, body text) of `fn name…(…) … { … }` by brace matching"""
+    m = re.search(r'fn %s(?:<[^>]*>)?\s*\(' % re.escape(name), src)
+    if not m:
+        raise Untranslatable('fn %s not found' % name)
+    i = m.end()
+    depth, j = 1, i
+    while depth:
+        c = src[j]
+        depth += (c == '(') - (c == ')')
+        j += 1
+    params = src[i:j - 1]
+    k = src.index('{', j)
+    depth, e = 1, k + 1
+    while depth:
+        c = src[e]
+        depth += (c == '{') - (c == '}')
+        e += 1
+    return strip_comments_rs(params), strip_comments_rs(src[k + 1:e - 1])
+
+
+VARS = {'created_at': ('t', 'Nat'), 'id': ('id', 'Bytes'), 'letter': ('letter', 'Nat'), 'tag_value': ('value', 'Bytes'),
+        'author': ('author', 'Bytes'), 'kind': ('kind', 'Nat'), 'tagbyte': ('letter', 'Nat'), 'tagvalue': ('value', 'Bytes'),
+        'since': ('since', 'Nat'), 'until': ('«until»', 'Nat')}
+
+
+def params_of(ptxt, skip=()):
+    out = []
+    for part in ptxt.split(','):
+        part = part.strip()
+        if not part or part.startswith('&') and 'self' in part:
+            continue
+        name = part.split(':')[0].strip()
+        if name in skip:
+            continue
+        if name not in VARS:
+            raise Untranslatable('parameter %r' % name)
+        out.append(VARS[name])
+    return out
+
+
+def key_expr(arg, padlen):
+    a = re.sub(r'\s+', '', arg)
+    table = {
+        '(u64::MAX-*created_at.deref()).to_be_bytes().as_slice()': 'be64 (U64MAX - t)',
+        'id.as_slice()': 'id', 'author.as_slice()': 'author', 'kind.deref().to_be_bytes()': 'be16 kind', 'tag_value': 'value',
+    }
+    if a in table:
+        return table[a]
+    if padlen is not None:
+        if a == 'core::iter::repeat(0).take(PADLEN-tag_value.len())':
+            return 'List.replicate (%d - value.length) 0' % padlen
+        if a == '&tag_value[..PADLEN]':
+            return 'value.take %d' % padlen
+    raise Untranslatable('key expression %r' % arg.strip()[:60])
+
+
+def key_block(body, padlen):
+    """statements appending to `key` -> list of Lean byte-list expressions"""
+    out, pos = [], 0
+    body = body.strip()
+    while pos < len(body):
+        rest = body[pos:].lstrip()
+        pos = len(body) - len(rest)
+        if not rest:
+            break
+        m = re.match(r'const PADLEN: usize = (\d+);', rest)
+        if m:
+            padlen = int(m.group(1)); pos += m.end(); continue
+        if rest.startswith('let mut key: Vec<u8> ='):
+            pos += rest.index(';') + 1; continue
+        m = re.match(r'key\.(extend|push)\(', rest)
+        if m:
+            i = m.end(); depth = 1; j = i
+            while depth:
+                depth += (rest[j] == '(') - (rest[j] == ')'); j += 1
+            arg = rest[i:j - 1]
+            if rest[j:j + 1] != ';':
+                raise Untranslatable('statement after %r' % rest[:40])
+            if m.group(1) == 'push':
+                if arg.strip() != 'letter':
+                    raise Untranslatable('push(%s)' % arg)
+                out.append('[letter]')
+            else:
+                out.append(key_expr(arg, padlen))
+            pos += j + 1; continue
+        m = re.match(r'if\s+(.*?)\s*\{', rest, re.S)
+        if m:
+            cond = re.sub(r'\s+', '', m.group(1))
+            if cond != 'tag_value.len()<=PADLEN' or padlen is None:
+                raise Untranslatable('condition %r' % m.group(1))
+            i = m.end(); depth = 1; j = i
+            while depth:
+                depth += (rest[j] == '{') - (rest[j] == '}'); j += 1
+            then_b = rest[i:j - 1]
+            m2 = re.match(r'\s*else\s*\{', rest[j:])
+            if not m2:
+                raise Untranslatable('if without else')
+            i2 = j + m2.end(); depth = 1; j2 = i2
+            while depth:
+                depth += (rest[j2] == '{') - (rest[j2] == '}'); j2 += 1
+            else_b = rest[i2:j2 - 1]
+            tl, _ = key_block(then_b, padlen)
+            el, _ = key_block(else_b, padlen)
+            out.append('(if value.length ≤ %d then %s else %s)' % (padlen, ' ++ '.join(tl) or '[]', ' ++ '.join(el) or '[]'))
+            pos += j2; continue
+        if rest.strip() == 'key':
+            break
+        raise Untranslatable('statement %r' % rest[:50])
+    return out, padlen
+
+
+KEYFNS = [('ci', 'keyCi'), ('tc', 'keyTc'), ('ac', 'keyAc'), ('akc', 'keyAkc'), ('atc', 'keyAtc'), ('ktc', 'keyKtc')]
+
+
+def keys_file(rep):
+    src = open(os.path.join(REPO, 'pocket-db/src/lmdb/mod.rs')).read()
+    L = ['import Pocket.Model.Keys'] + list(HEAD)
+    for tab, lean in KEYFNS:
+        # the key builder
+        try:
+            ptxt, body = fn_text(src, 'key_%s_index' % tab)
+            ps = params_of(ptxt)
+            parts, _ = key_block(body, None)
+            L += ['/-- `Lmdb::key_%s_index`, statement by statement -/' % tab,
+                  'def %s %s : Bytes := %s' % (lean, ' '.join('(%s : %s)' % p for p in ps), ' ++ '.join('(%s)' % x for x in parts)), '']
+            rep['translated'].append('lmdb/mod.rs:key_%s_index' % tab)
+            kparams = ps
+        except Untranslatable as ex:
+            L += ['/-- `key_%s_index` could not be translated: %s -/' % (tab, str(ex).replace('-/', '- /')),
+                  'def %s : Bytes := untranslatable_source "key_%s_index"' % (lean, tab), '']
+            rep['untranslatable'].append('key_%s_index: %s' % (tab, ex))
+            continue
+        # the bounds of the range read
+        try:
+            ptxt, body = fn_text(src, '%s_iter' % tab)
+            ps = params_of(ptxt, skip=('txn',))
+            b = re.sub(r'\s+', ' ', body).strip()
+            m = re.fullmatch(r'let start_prefix = Self::key_%s_index\((.*?)\); let end_prefix = Self::key_%s_index\((.*?)\); '
+                             r'let range = \( Bound::(Included|Excluded)\(&\*start_prefix\), Bound::(Included|Excluded)\(&\*end_prefix\), ?\); '
+                             r'Ok\(self\.%s_index\.range\(txn, &range\)\?\)' % (tab, tab, tab), b)
+            if not m:
+                raise Untranslatable('%s_iter: not "two keys, a range over %s_index"' % (tab, tab))
+            def args(txt):
+                out = []
+                for a in [x.strip() for x in txt.split(',') if x.strip()]:
+                    a2 = re.sub(r'\s+', '', a)
+                    if a2 == '[0;32].into()':
+                        out.append('zeros32')
+                    elif a2 == '[255;32].into()':
+                        out.append('ffs32')
+                    elif a in VARS:
+                        out.append(VARS[a][0])
+                    else:
+                        raise Untranslatable('%s_iter: argument %r' % (tab, a))
+                return out
+            lo, hi = args(m.group(1)), args(m.group(2))
+            if len(lo) != len(kparams) or len(hi) != len(kparams):
+                raise Untranslatable('%s_iter: %d arguments for a key of %d parts' % (tab, len(lo), len(kparams)))
+            sig = ' '.join('(%s : %s)' % p for p in ps)
+            L += ['/-- `Lmdb::%s_iter`: the two ends of the range it reads, and whether each is inclusive -/' % tab,
+                  'def %sIterLo %s : Bytes := %s %s' % (tab, sig, lean, ' '.join(lo)),
+                  'def %sIterHi %s : Bytes := %s %s' % (tab, sig, lean, ' '.join(hi)),
+                  'def %sIterInclusive : Bool × Bool := (%s, %s)' % (tab, 'true' if m.group(3) == 'Included' else 'false', 'true' if m.group(4) == 'Included' else 'false'), '']
+            rep['translated'].append('lmdb/mod.rs:%s_iter' % tab)
+        except Untranslatable as ex:
+            L += ['/-- `%s_iter` could not be translated: %s -/' % (tab, str(ex).replace('-/', '- /')),
+                  'def %sIterLo : Bytes := untranslatable_source "%s_iter"' % (tab, tab), '']
+            rep['untranslatable'].append('%s_iter: %s' % (tab, ex))
+    L += ['end Pocket.Src', '']
+    return '\n'.join(L)
+
+
 HEAD = ['/- GENERATED by lib/srcfacts.py from the current working tree of /repo on every check run.  Do not edit: edit the translator.',
         '   What the source says now; the `…_from_source` theorems (Pocket/Lemmas/FromSource*.lean, Pocket/Thm) prove that the model agrees. -/',
         'namespace Pocket.Src', '']
@@ -326,7 +506,9 @@ def generate():
         L += ['/-- every `const %s` of %s, in file order -/' % (name, rel), 'def %s : List Nat := %s' % (ident, vs)]
         rep['translated'].append('%s:%s=%s' % (rel, name, vs))
     L += ['', 'end Pocket.Src', '']
-    return {'Kind.lean': '\n'.join(K), 'Hex.lean': '\n'.join(H), 'Consts.lean': '\n'.join(L), 'Preds.lean': '\n'.join(E)}, rep
+    files = {'Kind.lean': '\n'.join(K), 'Hex.lean': '\n'.join(H), 'Consts.lean': '\n'.join(L), 'Preds.lean': '\n'.join(E)}
+    files['Keys.lean'] = keys_file(rep)
+    return files, rep
 
 
 def write():
